@@ -18,6 +18,8 @@ def main():
     bag = set()
     for i, case in enumerate(cases):
         try:
+            if case["cls"] == "ImmutableDictRaw":
+                continue
             if case["cls"] == "ImmutableDict":
                 o = ImmutableDict({bytes.fromhex(k): bytes.fromhex(v) for k, v in case["items"]})
             else:
